@@ -7,6 +7,8 @@ H3 act(fwd) - act(rev) = delta (unclamped getters)
 H4 partition-function ratios multiply
 H5 Keq = exp(-dG/RT), K_f * K_r = 1
 H6 a block addressed to one species changes only that species' term
+H3e Arrhenius form: get_EoRT_act(rev, del_m) = delta_HoRT(rev, act=True) + 1 - del_m for every explicit del_m
+    (0 and 0.0 included; None = molecularity of TS minus initial state), hence fwd - rev = delta H for equal del_m
 H7 the caller's condition dictionary is left unmodified
 RT online invariant at the return of pmutt._get_specie_kwargs: the dict handed to a species
    contains exactly the global keys plus that species' block
@@ -23,9 +25,11 @@ NT_RULE = ('reactions with 1-4 reactants/products, coefficients 0.25-4, 0-2 TS s
            'StatMech / Nasa / Nasa9 / Shomate; Reaction, ChemkinReaction, SurfaceReaction; T 250-3500 K, P, '
            'per-species <name>_kwargs blocks; all (rev, act).  non-trivial = fractional coefficient or TS or a '
            'per-species block; distinct = distinct canonical JSON')
-REQUIRED_ORACLES = ['H1', 'H2', 'H3', 'H4', 'H5', 'H6', 'H7', 'RT']
+REQUIRED_ORACLES = ['H1', 'H2', 'H3', 'H3e', 'H4', 'H5', 'H6', 'H7', 'RT']
 REQUIRED_CLASSES = ['cls:Reaction', 'cls:ChemkinReaction', 'cls:SurfaceReaction', 'flavor:statmech',
-                    'flavor:mixed', 'flavor:empirical', 'ts:0', 'ts:1', 'ts:2', 'block', 'block:falsy_override', 'fractional']
+                    'flavor:mixed', 'flavor:empirical', 'ts:0', 'ts:1', 'ts:2', 'block', 'block:falsy_override', 'fractional',
+                    'twin:same_name_other_object', 'twin:block_addressed', 'E_act:del_m=0', 'E_act:del_m=None',
+                    'E_act:del_m=0:molecularity_changes']
 REQUIRED_PROBES = ['Reaction.get_state_quantity', 'Reaction.get_delta_quantity', '_get_specie_kwargs',
                    '_force_pass_arguments', '_get_states']
 ASSUMPTIONS = ['ChemkinReaction / SurfaceReaction are driven with empirical species only (they require a phase) '
@@ -42,7 +46,7 @@ def directed(tier):
 
 
 def generate(rng, tier):
-    spec = RG.gen_reaction(rng)
+    spec = RG.gen_reaction(rng, twins=True)
     spec['cond'] = RG.gen_conditions(rng, spec)
     return spec
 
@@ -101,6 +105,10 @@ def run_case(spec, ctx):
     frac = any(v != int(v) for _, v in spec['reactants'] + spec['products'] + (spec['ts'] or []))
     if has_block:
         ctx.cls('block')
+    if spec.get('twin'):
+        ctx.cls('twin:same_name_other_object')
+        if '%s_kwargs' % RG.shown(spec['twin']) in cond:
+            ctx.cls('twin:block_addressed')
     if frac:
         ctx.cls('fractional')
     ctx.nontrivial(has_block or frac or nts > 0)
@@ -169,6 +177,40 @@ def run_case(spec, ctx):
             ctx.close('H3', delta[(False, True)] - delta[(True, True)], delta[(False, False)], 1e-10,
                       dict(m, form='delta', what='fwd-rev'),
                       scale=max(1.0, mag['ts'], mag['reactants'], mag['products']))
+    # --- Arrhenius activation energy (documented: E/RT = dH_act/RT + 1 - del_m)
+    if nts and cls == 'Reaction':
+        try:
+            href = {st: RG.state_sum(objs, side, 'get_HoRT', cond) for st, side in sides.items()}
+        except Exception as e:
+            href = None
+            ctx.inconc('H3e', 'species getter raised', exc=repr(e)[:200])
+        if href is not None:
+            msum = {st: sum(v for _, v in side) for st, side in sides.items()}
+            mg = max(1.0, href['ts'][1], href['reactants'][1], href['products'][1])
+            for label, dm in (('default', 'default'), ('1', 1), ('0', 0), ('0.0', 0.0), ('-1', -1), ('2', 2),
+                              ('None', None)):
+                got = {}
+                for rev in (False, True):
+                    ini = 'products' if rev else 'reactants'
+                    kw = dict(cond) if dm == 'default' else dict(cond, del_m=dm)
+                    mm = dict(base, q='EoRT_act', del_m=label, rev=rev)
+                    g = ctx.call('H3e', mm, rxn.get_EoRT_act, rev=rev, **kw)
+                    if g is core.NOVALUE:
+                        continue
+                    got[rev] = _f(g)
+                    d = 1 if dm == 'default' else (msum['ts'] - msum[ini] if dm is None else dm)
+                    ctx.close('H3e', got[rev], href['ts'][0] - href[ini][0] + 1 - d, 1e-10, mm, scale=mg)
+                if label in ('0', '0.0'):
+                    ctx.cls('E_act:del_m=0')
+                    if msum['reactants'] != msum['ts'] or msum['products'] != msum['ts']:
+                        ctx.cls('E_act:del_m=0:molecularity_changes')
+                elif label == 'None':
+                    ctx.cls('E_act:del_m=None')
+                elif len(got) == 2:
+                    pass
+                if len(got) == 2 and dm is not None:
+                    ctx.close('H3e', got[False] - got[True], href['products'][0] - href['reactants'][0], 1e-10,
+                              dict(base, q='EoRT_act', del_m=label, what='fwd-rev'), scale=mg)
     # --- partition functions
     if all_statmech:
         qc = dict(cond, ignore_q_elec=True)
@@ -225,8 +267,10 @@ def run_case(spec, ctx):
     else:
         ctx.extra['H5_skipped_overflow'] = ctx.extra.get('H5_skipped_overflow', 0) + 1
     # --- H6: a block for one species moves only that species' term
-    names = sorted(set(n for side in sides.values() for n, _ in side))
+    names = sorted(set(RG.shown(n) for side in sides.values() for n, _ in side))
     tgt = names[(ctx.case_index or 0) % len(names)]
+    if spec.get('twin') and (ctx.case_index or 0) % 2:
+        tgt = RG.shown(spec['twin'])
     X = 'SoR' if 'SoR' in quantities else quantities[0]
     c_no = {k: v for k, v in cond.items() if k != '%s_kwargs' % tgt}
     c_yes = dict(c_no)
@@ -236,12 +280,17 @@ def run_case(spec, ctx):
     d1 = ctx.call('H6', mm, getattr(rxn, 'get_delta_' + X), **c_yes)
     if core.NOVALUE not in (d0, d1):
         try:
-            x0 = _f(RG.call_getter(objs[tgt], 'get_' + X, RG.species_kwargs(tgt, c_no)))
-            x1 = _f(RG.call_getter(objs[tgt], 'get_' + X, RG.species_kwargs(tgt, c_yes)))
-            nu = sum(v for n, v in spec['products'] if n == tgt) - sum(v for n, v in spec['reactants'] if n == tgt)
-            ctx.close('H6', _f(d1) - _f(d0), nu * (x1 - x0), 1e-9, mm, scale=max(1.0, abs(_f(d0))),
-                      target=tgt, moved=x1 - x0)
-            if x1 != x0:
+            # every object that carries the addressed name moves (twins share a name), nothing else does
+            want_move, moved = 0.0, False
+            for key in sorted(set(n for n, _ in spec['products'] + spec['reactants'] if RG.shown(n) == tgt)):
+                x0 = _f(RG.call_getter(objs[key], 'get_' + X, RG.species_kwargs(key, c_no)))
+                x1 = _f(RG.call_getter(objs[key], 'get_' + X, RG.species_kwargs(key, c_yes)))
+                nu = sum(v for n, v in spec['products'] if n == key) - sum(v for n, v in spec['reactants'] if n == key)
+                want_move += nu * (x1 - x0)
+                moved = moved or x1 != x0
+            ctx.close('H6', _f(d1) - _f(d0), want_move, 1e-9, mm, scale=max(1.0, abs(_f(d0))),
+                      target=tgt, moved=want_move)
+            if moved:
                 ctx.nontrivial()
         except Exception as e:
             ctx.inconc('H6', 'species getter raised', exc=repr(e)[:200])
